@@ -1841,8 +1841,9 @@ SDwritedata(int32  sdsid,  /* IN: dataset ID */
     long *End    = NULL;
     long *Stride = NULL;
 #endif
-    int no_strides = 0;
-    int ret_value  = SUCCEED;
+    int no_strides  = 0;
+    int was_created = FALSE; /* this call is the first write to a newly created dataset */
+    int ret_value   = SUCCEED;
     int i;
 
     /* this decides how a dataset with unlimited dimension is written along the
@@ -1953,6 +1954,7 @@ SDwritedata(int32  sdsid,  /* IN: dataset ID */
             var->set_length = TRUE;
         } /* end if */
         var->created = FALSE;
+        was_created  = TRUE;
     } /* end if */
 
     /* call the writeg routines if a stride is given */
@@ -1961,8 +1963,12 @@ SDwritedata(int32  sdsid,  /* IN: dataset ID */
     else
         status = NCgenio(handle, varid, Start, End, Stride, NULL, data);
 
-    if (status == -1)
+    if (status == -1) {
+        /* a refused first write stored nothing: the dataset is still newly created */
+        if (was_created && var->data_ref == 0)
+            var->created = TRUE;
         ret_value = FAIL;
+    }
     else
         ret_value = SUCCEED;
 
